@@ -329,7 +329,7 @@ impl RangeAst {
 // ------------------------------------------------------------------------------------------
 // strategies
 
-pub const GARBAGE: &[&str] = &["foo", "1.y", ">=1.y", "1.2.3.4", "~1.2.3.4", "1.2beta4", "!1", "latest", ".1", "1..2", "a.b.c", "^1.2.3.4", "x|y", "1|2", "- 1.2beta4", "- 1.y", "- foo", "- 2foo"];
+pub const GARBAGE: &[&str] = &["foo", "1.y", ">=1.y", "1.2.3.4", "~1.2.3.4", "1.2beta4", "!1", "latest", ".1", "1..2", "a.b.c", "^1.2.3.4", "x|y", "1|2", "- 1.2beta4", "- 1.y", "- foo", "- 2foo", "-2", "1-"];
 
 pub const PRE_POOL: &[&[&str]] = &[
     &["0"],
